@@ -20,6 +20,7 @@ package c05
 //           operator, cast target and member/index/call suffix over every operand kind.
 
 import (
+	"fmt"
 	"strings"
 
 	"hv/fw"
@@ -396,6 +397,43 @@ func opTypeCases(add func(gen string, data []byte, mods map[string]string, both 
 		// the operand in every expression position that constrains its type
 		for _, tmpl := range []string{"if § { }", "while § { break; }", "for e in § { }", "match § { _ => 1 }", "return §;", "spawn §()", "trigger § at §()", "new { a: § }.a", "fn() -> int { § }()", "try { § } catch e { § }", "§..§", "if true { § } else { 1 }"} {
 			add("optype", []byte(c05OpPrelude+strings.ReplaceAll(tmpl, "§", x)+"; }"), nil, false)
+		}
+	}
+}
+
+// importKindCases: every import kind (plain, type, templ, trigger) applied to every kind of item of a
+// code module (function, global, type, nothing) and of the builtin modules, followed by every way of
+// using the imported name (call, value, type annotation, trigger statement, trigger annotation, impl).
+// An import that fails must leave the module in a state every later use can be analysed in.
+func importKindCases(add func(gen string, data []byte, mods map[string]string, both bool)) {
+	lib := "pub fn f(x: int) -> int { x }\npub let v = 1;\npub type T = { a: int };\nfn hidden() {}\nfn main() {}\n"
+	kinds := []string{"", "type ", "templ ", "trigger "}
+	items := []struct{ mod, name string }{
+		{"lib", "f"}, {"lib", "v"}, {"lib", "T"}, {"lib", "hidden"}, {"lib", "missing"},
+		{"triggers", "minute"}, {"templates", "FooFeature"}, {"net", "ping"}, {"testing", "assert_eq"}, {"nowhere", "x"},
+	}
+	uses := []string{
+		"fn main() { §(1); }",
+		"fn main() { let a = §; }",
+		"fn main() { let a: § = 1; }",
+		"event fn cb(elapsed: int) {}\nfn main() { trigger cb on §(1); }",
+		"#[trigger on §(1)]\nevent fn cb(elapsed: int) {}\nfn main() {}",
+		"$S = int;\nimpl § with { light } for $S { fn dim(self: $S, percent: int) -> bool { true } }\nfn main() {}",
+		"fn main() {}",
+	}
+	for _, k := range kinds {
+		for _, it := range items {
+			for _, u := range uses {
+				for _, form := range []string{"import %s%s from %s;\n", "import { %s%s } from %s;\n", "import { %s%s, %s%s } from %s;\n"} {
+					var imp string
+					if strings.Count(form, "%s") == 5 {
+						imp = fmt.Sprintf(form, k, it.name, k, it.name, it.mod)
+					} else {
+						imp = fmt.Sprintf(form, k, it.name, it.mod)
+					}
+					add("import-kinds", []byte(imp+strings.ReplaceAll(u, "§", it.name)), map[string]string{"lib": lib}, false)
+				}
+			}
 		}
 	}
 }
